@@ -13,9 +13,14 @@ import z3, os, time, subprocess, re, itertools, fractions
 
 
 def _raw(x):
-    """python number / z3 term / D  ->  z3 real term (value part)"""
-    if isinstance(x, D):
-        return x.v
+    """python number / z3 term / (nested) D  ->  z3 real term (innermost value part)"""
+    while isinstance(x, D):
+        x = x.v
+    return _num(x)
+
+
+def _num(x):
+    """python number -> z3 numeral; z3 terms and D pass through"""
     if isinstance(x, bool):
         raise TypeError("bool in arithmetic")
     if isinstance(x, (int, fractions.Fraction)):
@@ -25,15 +30,47 @@ def _raw(x):
     return x
 
 
+def _add(x, y):
+    if isinstance(x, D) or isinstance(y, D):
+        x, y = D.lift(x), D.lift(y); return D(_add(x.v, y.v), _add(x.d, y.d))
+    return _num(x) + _num(y)
+
+
+def _sub(x, y):
+    if isinstance(x, D) or isinstance(y, D):
+        x, y = D.lift(x), D.lift(y); return D(_sub(x.v, y.v), _sub(x.d, y.d))
+    return _num(x) - _num(y)
+
+
+def _mul(x, y):
+    if isinstance(x, D) or isinstance(y, D):
+        x, y = D.lift(x), D.lift(y); return D(_mul(x.v, y.v), _add(_mul(x.d, y.v), _mul(x.v, y.d)))
+    return _num(x) * _num(y)
+
+
+def _div(x, y):
+    if isinstance(x, D) or isinstance(y, D):
+        x, y = D.lift(x), D.lift(y)
+        return D(_div(x.v, y.v), _div(_sub(_mul(x.d, y.v), _mul(x.v, y.d)), _mul(y.v, y.v)))
+    return _num(x) / _num(y)
+
+
+def _neg(x):
+    if isinstance(x, D):
+        return D(_neg(x.v), _neg(x.d))
+    return -_num(x)
+
+
 class D:
     """dual number value + eps*derivative (forward-mode differentiation). EVERY scalar
     handled by the shim is a D (derivative 0 for constants), so that z3's own operator
-    overloads never see a D on their right-hand side."""
+    overloads never see a D on their right-hand side. Components may themselves be D
+    (nested duals) for higher derivatives."""
     __slots__ = ("v", "d")
 
     def __init__(self, v, d=0):
-        self.v = _raw(v)
-        self.d = _raw(d)
+        self.v = _num(v)
+        self.d = _num(d)
 
     @staticmethod
     def lift(x):
@@ -41,28 +78,28 @@ class D:
 
     def __add__(a, b):
         if isinstance(b, (Vec, Mat)): return NotImplemented
-        b = D.lift(b); return D(a.v + b.v, a.d + b.d)
+        return _add(a, b)
     __radd__ = __add__
     def __sub__(a, b):
         if isinstance(b, (Vec, Mat)): return NotImplemented
-        b = D.lift(b); return D(a.v - b.v, a.d - b.d)
-    def __rsub__(a, b): b = D.lift(b); return D(b.v - a.v, b.d - a.d)
+        return _sub(a, b)
+    def __rsub__(a, b): return _sub(b, a)
     def __mul__(a, b):
         if isinstance(b, (Vec, Mat)):
             return NotImplemented
-        b = D.lift(b); return D(a.v * b.v, a.d * b.v + a.v * b.d)
-    def __rmul__(a, b): b = D.lift(b); return D(b.v * a.v, b.d * a.v + b.v * a.d)
-    def __truediv__(a, b): b = D.lift(b); return D(a.v / b.v, (a.d * b.v - a.v * b.d) / (b.v * b.v))
-    def __rtruediv__(a, b): b = D.lift(b); return D(b.v / a.v, (b.d * a.v - b.v * a.d) / (a.v * a.v))
-    def __neg__(a): return D(-a.v, -a.d)
+        return _mul(a, b)
+    def __rmul__(a, b): return _mul(b, a)
+    def __truediv__(a, b): return _div(a, b)
+    def __rtruediv__(a, b): return _div(b, a)
+    def __neg__(a): return _neg(a)
     def __pos__(a): return a
     # comparisons act on values and give z3 Booleans (used by BR()/ITE())
-    def __lt__(a, b): return a.v < _raw(b)
-    def __le__(a, b): return a.v <= _raw(b)
-    def __gt__(a, b): return a.v > _raw(b)
-    def __ge__(a, b): return a.v >= _raw(b)
-    def __eq__(a, b): return a.v == _raw(b)
-    def __ne__(a, b): return a.v != _raw(b)
+    def __lt__(a, b): return _raw(a) < _raw(b)
+    def __le__(a, b): return _raw(a) <= _raw(b)
+    def __gt__(a, b): return _raw(a) > _raw(b)
+    def __ge__(a, b): return _raw(a) >= _raw(b)
+    def __eq__(a, b): return _raw(a) == _raw(b)
+    def __ne__(a, b): return _raw(a) != _raw(b)
     __hash__ = None
 
 
@@ -81,8 +118,11 @@ def val(x):
     return _raw(x)
 
 
-def der(x):
-    return x.d if isinstance(x, D) else z3.RealVal(0)
+def der(x, order=1):
+    """order-th derivative carried by a (nested) dual: .d taken `order` times, then the value"""
+    for _ in range(order):
+        x = x.d if isinstance(x, D) else 0
+    return _raw(x)
 
 
 def is_scalar(x):
@@ -126,33 +166,70 @@ class Angle:
     def __add__(self, o):
         a = Angle.__new__(Angle)
         a.c, a.s = self.c * o.c - self.s * o.s, self.s * o.c + self.c * o.s
-        a.rate = None if (self.rate is None and o.rate is None) else D.lift(self.rate or 0) + D.lift(o.rate or 0)
+        a.rate = None if (self.rate is None and o.rate is None) else _add(0 if self.rate is None else self.rate, 0 if o.rate is None else o.rate)
         return a
 
     def __neg__(self):
         a = Angle.__new__(Angle); a.c, a.s = self.c, -self.s
-        a.rate = None if self.rate is None else -D.lift(self.rate)
+        a.rate = None if self.rate is None else _neg(self.rate)
         return a
+
+
+_TRIG = {}
+
+
+def _cs_pair(e):
+    """(c,s) for a real-valued term e that is not an Angle: one fresh pair per distinct term"""
+    k = e.sexpr()
+    if k not in _TRIG or _TRIG[k][2] is not ENV:
+        c, s_ = ENV.new("cosv"), ENV.new("sinv")
+        ENV.assume(c * c + s_ * s_ == 1)
+        _TRIG[k] = (c, s_, ENV)
+    return _TRIG[k][0], _TRIG[k][1]
+
+
+def _cosv(v):
+    return cos(v) if isinstance(v, D) else _cs_pair(_num(v))[0]
+
+
+def _sinv(v):
+    return sin(v) if isinstance(v, D) else _cs_pair(_num(v))[1]
 
 
 def cos(a):
     if isinstance(a, Angle):
-        return D(a.c) if a.rate is None else D(a.c, -a.s * _raw(a.rate))
-    raise TypeError("cos of non-Angle %r" % (a,))
+        return D(a.c) if a.rate is None else D(a.c, _neg(_mul(a.s, a.rate)))
+    if isinstance(a, D):
+        return D(_cosv(a.v), _neg(_mul(_sinv(a.v), a.d)))
+    return D(_cosv(a))
 
 
 def sin(a):
     if isinstance(a, Angle):
-        return D(a.s) if a.rate is None else D(a.s, a.c * _raw(a.rate))
-    raise TypeError("sin of non-Angle %r" % (a,))
+        return D(a.s) if a.rate is None else D(a.s, _mul(a.c, a.rate))
+    if isinstance(a, D):
+        return D(_sinv(a.v), _mul(_cosv(a.v), a.d))
+    return D(_sinv(a))
 
 
 def sqrt(e):
     """r >= 0, r*r == e (domain e >= 0 becomes an explicit side condition)"""
     e = D.lift(e)
-    r = ENV.new("sqrt")
-    ENV.assume(z3.And(r >= 0, r * r == e.v))
-    return D(r, e.d / (2 * r))
+    if isinstance(e.v, D):
+        r = sqrt(e.v)
+    else:
+        r = ENV.new("sqrt")
+        ENV.assume(z3.And(r >= 0, r * r == e.v))
+    return D(r, _div(e.d, _mul(2, r)))
+
+
+def sign(x):
+    x = D.lift(x)
+    return D(z3.If(_raw(x) > 0, z3.RealVal(1), z3.If(_raw(x) < 0, z3.RealVal(-1), z3.RealVal(0))))
+
+
+def clamp(lo, x, hi):
+    return ITE(_raw(x) < _raw(lo), lo, ITE(_raw(x) > _raw(hi), hi, x))
 
 
 def square(x):
@@ -176,6 +253,7 @@ class Vec:
 
     def __len__(self): return len(self.e)
     def size(self): return len(self.e)
+    def __call__(self, i): return self.e[i]
     def __getitem__(self, i): return self.e[i]
     def __setitem__(self, i, v): self.e[i] = _z(v)
     def __iter__(self): return iter(self.e)
@@ -316,8 +394,10 @@ def vec_sym(name, n, rate_prefix=None):
 def ITE(c, a, b):
     if isinstance(c, bool):
         return a if c else b
-    a, b = D.lift(a), D.lift(b)
-    return D(z3.If(c, a.v, b.v), z3.If(c, a.d, b.d))
+    if isinstance(a, D) or isinstance(b, D):
+        a, b = D.lift(a), D.lift(b)
+        return D(ITE(c, a.v, b.v), ITE(c, a.d, b.d))
+    return z3.If(c, _num(a), _num(b))
 
 
 def mat_sym(name, nr, nc):
